@@ -271,6 +271,19 @@ class MS:
             wire, uids = self.uidset(k, args[0], args[1], args[2])
             info['uids'] = uids
             res = c.command(b'UID EXPUNGE %s' % wire)
+        elif op == 'kill':
+            # one step that leaves an unreported expunge pending for every
+            # *other* session: flag one message \Deleted and expunge it
+            known = [u for u in c.shadow.view if u is not None]
+            if not known:
+                res = c.command(b'NOOP')
+            else:
+                u = known[args[0] % len(known)]
+                c.command(b'UID STORE %d +FLAGS.SILENT (\\Deleted)' % u)
+                res = c.command(b'UID EXPUNGE %d' % u)
+                info['uids'] = {u}
+                info['op'] = 'uidexpunge'
+                self.labels.append('expunge-pending-for-others')
         elif op in ('copy', 'move'):
             uidmode = bool(args[0] % 2)
             word = op.upper().encode()
@@ -392,7 +405,7 @@ def steps_strategy(max_steps: int, nsess_max: int = 3, *,
     opnames = ops or ['append', 'append', 'store', 'store', 'expunge',
                       'expunge', 'uidexpunge', 'copy', 'move', 'fetch',
                       'fetch', 'search', 'noop', 'check', 'idle', 'done',
-                      'tick']
+                      'tick', 'kill', 'kill']
     step = st.tuples(st.integers(0, nsess_max - 1), st.sampled_from(opnames),
                      r, r, r, r, r, r, r).map(list)
     return st.lists(step, min_size=1, max_size=max_steps)
